@@ -51,7 +51,8 @@ type procLayer struct {
 	onWrite func(key string)
 	// ident: goroutine id -> name of the execution it carries (stage or directly run task);
 	// written by the hooks in that goroutine, read by the exec handler in that goroutine
-	ident sync.Map
+	ident      sync.Map
+	stageIdent sync.Map // goroutines that belong to a stage (their identity is never overwritten)
 }
 
 func (pl *procLayer) identity(gid int64) string {
